@@ -233,6 +233,7 @@ func runC11(c *Ctx) {
 	c11Search(c)
 	c11Parser(c)
 	c11Compiled(c)
+	c11CompiledRagged(c)
 	c11World(c)
 	c11Find(c)
 	c11Attempts(c)
@@ -620,6 +621,87 @@ func c11Search(c *Ctx) {
 		nshape++
 	}
 	r.Histogram["search_nesting_shapes"] = nshape
+
+	// (d) dependent shapes: a run-time sized inner call whose length / key set differs from one
+	// outer fork to the next (including empty), optionally around a third level: every fork of
+	// the node, for every assignment of inner sources to outer forks
+	type spec struct {
+		n    int
+		keys []string
+	}
+	outers := []dim{{"arr", 2, true, nil}, {"arr", 3, true, nil}, {"map", 2, true, []string{"a", "b"}}, {"arr", 3, false, nil}}
+	inner := map[string][]spec{
+		"arr": {{0, nil}, {1, nil}, {2, nil}, {3, nil}, {11, nil}},
+		"map": {{0, nil}, {1, []string{"a"}}, {2, []string{"a", "b"}}, {2, []string{"a/fork_b", "b"}}, {2, []string{"fork0", "0"}}},
+	}
+	thirds := []*dim{nil, {"arr", 2, true, nil}, {"map", 2, true, []string{"x", "y"}}, {"arr", 2, false, nil}}
+	ndep := 0
+	mk := func(d dim, i int) c11Part {
+		if d.kind == "arr" {
+			return c11Part{Kind: "arr", Index: i, Len: d.n, Static: d.static}
+		}
+		return c11Part{Kind: "map", Key: d.keys[i], Keys: d.keys, Static: d.static}
+	}
+	for _, od := range outers {
+		for _, ik := range []string{"arr", "map"} {
+			specs := inner[ik]
+			assign := make([]int, od.n)
+			for {
+				for _, th := range thirds {
+					forks = forks[:0]
+					for o := 0; o < od.n; o++ {
+						sp := specs[assign[o]]
+						var mids []c11Part
+						if sp.n == 0 {
+							mids = []c11Part{{Kind: "empty"}}
+						} else {
+							for j := 0; j < sp.n; j++ {
+								mids = append(mids, mk(dim{ik, sp.n, false, sp.keys}, j))
+							}
+						}
+						for _, m := range mids {
+							if th == nil {
+								forks = append(forks, c11Fork{parts: []c11Part{mk(od, o), m}})
+								continue
+							}
+							for t := 0; t < th.n; t++ {
+								forks = append(forks, c11Fork{parts: []c11Part{mk(od, o), m, mk(*th, t)}})
+							}
+						}
+					}
+					okAll := true
+					for fi := range forks {
+						id, ok, e := c11ForkId(forks[fi].parts)
+						if !ok {
+							r.violate(Violation{Kind: "property", Key: "C11:forkid-error", What: "ForkIdString fails for a well-formed fork id: " + e, Input: c11ShowParts(forks[fi].parts)})
+							okAll = false
+							break
+						}
+						forks[fi].id = id
+					}
+					if okAll {
+						c11CheckDistinct(c, forks, "dependent-shapes")
+						r.Evals += len(forks)
+						r.Distinct += len(forks)
+						ndep++
+					}
+				}
+				j := 0
+				for j < od.n {
+					assign[j]++
+					if assign[j] < len(specs) {
+						break
+					}
+					assign[j] = 0
+					j++
+				}
+				if j == od.n {
+					break
+				}
+			}
+		}
+	}
+	r.Histogram["search_dependent_shape_nodes"] = ndep
 }
 
 // ---------- 4. the journal regex as a parser ----------
@@ -940,6 +1022,88 @@ func c11Compiled(c *Ctx) {
 		if len(ids) != want {
 			r.violate(Violation{Kind: "property", Key: "C11:fork-count:" + cls, What: "a statically mapped stage does not get one fork per index/key combination",
 				Input: map[string]interface{}{"mro": src}, Impl: len(ids), Expect: want})
+		}
+	}
+}
+
+const c11RaggedTemplate = `
+stage ECHO(
+    in  int what,
+    in  int k,
+    out int result,
+    src comp "x",
+)
+
+pipeline INNER(
+    in  %[1]s items,
+    out %[2]s r,
+)
+{
+    map call ECHO(
+        what = split self.items,
+        k    = 1,
+    )
+    return (
+        r = ECHO.result,
+    )
+}
+
+pipeline TOP(
+    out %[3]s r,
+)
+{
+    map call INNER(
+        items = split %[4]s,
+    )
+    return (
+        r = INNER.r,
+    )
+}
+
+call TOP()
+`
+
+// c11CompiledRagged: statically known inner sources whose length / key set differs from one outer
+// fork to the next (including empty and null elements): the forks of the inner stage, as expanded by
+// the real compiler + ForkIdSet.MakeForkIds, must all get their own directory and journal name.
+func c11CompiledRagged(c *Ctx) {
+	r := c.Res
+	type prog struct {
+		innerIn, innerOut, topOut, lit string
+		want                           int
+	}
+	progs := []prog{
+		{"int[]", "int[]", "int[][]", "[[1, 2, 3], [4], []]", -1},
+		{"int[]", "int[]", "int[][]", "[[-1], null]", -1},
+		{"int[]", "int[]", "int[][]", "[[], [], [1, 2]]", -1},
+		{"int[]", "int[]", "int[][]", "[[1, 2, 3, 4, 5, 6, 7, 8, 9, 10, 11], [1], [1, 2]]", -1},
+		{"map<int>", "map<int>", "map<int>[]", `[{"a": 1, "b": 2}, {}, {"a/fork_b": 1}, {"b": 3}]`, -1},
+		{"int[]", "int[]", "map<int[]>", `{"x": [1, 2], "y": [], "x/fork0": [3]}`, -1},
+	}
+	for _, pg := range progs {
+		src := fmt.Sprintf(c11RaggedTemplate, pg.innerIn, pg.innerOut, pg.topOut, pg.lit)
+		ids, err := core.VerifCompiledForkIds(src, "TOP.INNER.ECHO")
+		if err != nil {
+			r.note("compiled ragged nesting %s: %v", pg.lit, err)
+			continue
+		}
+		r.hist("compiled_ragged_nestings")
+		seen := map[string]bool{}
+		jseen := map[string]bool{}
+		for _, id := range ids {
+			r.count("compiled-ragged:"+pg.lit+":"+id, true)
+			jn := core.VerifEncodeJournalName(id)
+			if seen[id] || jseen[jn] {
+				r.violate(Violation{Kind: "property", Key: "C11:compiled-dir-collision:dependent-shapes",
+					What:  "two forks of a compiled stage under outer forks with different (static) inner sources get the same directory or journal name",
+					Input: map[string]interface{}{"mro": src, "stage": "TOP.INNER.ECHO"}, Impl: ids, Expect: "pairwise distinct fork ids",
+					Broken: "forkName_distinct_after_divergence"})
+				break
+			}
+			seen[id], jseen[jn] = true, true
+		}
+		if len(r.Samples) < 8 {
+			r.sample(map[string]interface{}{"source": pg.lit, "fork_ids_of_TOP.INNER.ECHO": ids})
 		}
 	}
 }
